@@ -110,6 +110,29 @@ def M_io_error_new(it, ctx, args, st):
     yield st, Agg('std::io::Error', (args[0],))
 
 
+def M_vec_u8_extend(it, ctx, args, st):
+    """Vec<u8>::extend_from_slice (byte vectors are bounded strings; pieces remembered like for BytesMut)"""
+    p = args[0]
+    cur = st.deref(p)
+    while isinstance(cur, Ptr):
+        p, cur = cur, st.deref(cur)
+    if isinstance(cur, Seq) and not cur.items:
+        st.write(p, bstr(b''))
+    bm_append(st, p, sval(st, args[1]))
+    yield st, UNIT
+
+
+def M_vec_u8_push(it, ctx, args, st):
+    p = args[0]
+    cur = st.deref(p)
+    while isinstance(cur, Ptr):
+        p, cur = cur, st.deref(cur)
+    if isinstance(cur, Seq) and not cur.items:
+        st.write(p, bstr(b''))
+    bm_append(st, p, BStr((args[1],), bv(1)))
+    yield st, UNIT
+
+
 def M_bm_put_u8(it, ctx, args, st):
     bm_append(st, args[0], BStr((args[1],), bv(1)))
     yield st, UNIT
@@ -240,6 +263,8 @@ MODELS = [
     (r'bytes::BytesMut::freeze', M_bm_freeze),
     (r'<bytes::BytesMut as bytes::BufMut>::put_u8|bytes::BytesMut::put_u8', M_bm_put_u8), (r'<bytes::BytesMut as bytes::BufMut>::put_slice', M_bm_extend),
     (r'percent_encoding::percent_encode_byte', M_percent_encode_byte),
+    (r'std::vec::Vec::<u8>::extend_from_slice', M_vec_u8_extend), (r'std::vec::Vec::<u8>::push', M_vec_u8_push),
+    (r'bytes::BytesMut::with_capacity', M_bytes_new),
     (r'<bytes::Bytes(Mut)? as bytes::Buf>::remaining', M_buf_remaining), (r'<bytes::Bytes(Mut)? as bytes::Buf>::has_remaining', M_buf_has_remaining),
     (r'<bytes::Bytes(Mut)? as bytes::Buf>::copy_to_slice', M_buf_copy_to_slice),
     (r'<\[u8\] as std::ops::IndexMut<std::ops::Range(?:To|From)?<usize>>>::index_mut|std::slice::index::<impl std::ops::IndexMut<.*> for \[u8\]>::index_mut', M_slice_index_mut_range),
@@ -551,7 +576,7 @@ MODELS += [
     (r'<http::header::GetAll<.*> as std::iter::IntoIterator>::into_iter|<&http::header::GetAll<.*> as std::iter::IntoIterator>::into_iter', M_getall_iter),
     (r'http::HeaderValue::to_str|http::header::HeaderValue::to_str', M_hv_to_str),
     (r'http::HeaderValue::from_static|http::header::HeaderValue::from_static', M_hv_from_static),
-    (r'<http::HeaderValue as std::cmp::PartialEq>::eq', M_hv_eq),
+    (r'<&*http::(?:header::)?HeaderValue as std::cmp::PartialEq(?:<.*>)?>::eq', M_hv_eq),
     (r'mediatype::MediaType::parse::<?.*>?|mediatype::MediaType::parse', M_mt_parse),
     (r'mediatype::MediaTypeList::new', M_mtl_new), (r'mediatype::MediaType::new', M_mt_new),
     (r'mediatype::MediaType::essence', M_mt_essence),
